@@ -191,6 +191,8 @@ impl HistoryProp for P08 {
         }
         if sim.outstanding.len() >= 2 {
             v.push(Act::RespondAllRev(self.sizes[0]));
+            // the same answers handed over in one `enqueue_responses` batch, interleaved
+            v.push(Act::RespondBatch(2 + sim.step as u64 * 7919 + sim.outstanding.len() as u64, self.sizes[0]));
         }
         if self.allow_flush && (0..sim.gens.len()).all(|gi| Self::unread_output(sim, gi) < 100_000) && sim.gens.iter().any(|g| !g.supplied.is_empty()) {
             v.push(Act::Flush);
@@ -201,6 +203,11 @@ impl HistoryProp for P08 {
     fn after(&mut self, ctx: &mut Ctx, sim: &mut Sim, act: &Act, applied: &Applied) -> Option<(String, String)> {
         if let Some(v) = self.inline_checks(sim) {
             return Some(v);
+        }
+        // no lost wake-up at any point of the history, whether or not the clients have read yet
+        ctx.rep.count("quiet_output_checks");
+        if let Some(d) = sim.quiet_with_deliverable_output() {
+            return Some(("stall:quiet-with-deliverable-output".into(), d));
         }
         match act {
             Act::Poll => {
@@ -345,7 +352,7 @@ pub fn choose(rng: &mut Rng, _sim: &Sim, en: &[Act]) -> Option<Act> {
             Act::Drain(_) | Act::DrainSome(_) => 4,
             Act::Respond(_, Size::Large) => 1,
             Act::Respond(_, _) => 4,
-            Act::RespondAllRev(_) | Act::RespondAll(_) => 2,
+            Act::RespondAllRev(_) | Act::RespondAll(_) | Act::RespondBatch(_, _) => 2,
             Act::Flush => 2,
             _ => 1,
         });
